@@ -1358,3 +1358,60 @@ pub fn run_c08_planted(ctx: &Ctx, acc: &Mutex<Acc>) -> Option<Violation> {
 pub fn replay_c08_planted(case: serde_json::Value) -> R<CaseMeta> {
     plant_run(&serde_json::from_value(case).expect("harness: bad C08P case"))
 }
+
+// =============================================================================================
+// seed corpus for the libFuzzer targets (thorough tier of C16)
+
+pub fn gen_corpus(dir: &Path) {
+    let mk = |sub: &str| {
+        let d = dir.join(sub);
+        std::fs::create_dir_all(&d).expect("harness: mkdir corpus");
+        d
+    };
+    let keysets: Vec<Vec<Vec<u8>>> = vec![
+        vec![],
+        vec![vec![]],
+        vec![b"a".to_vec()],
+        vec![b"ab".to_vec(), vec![], vec![0xff, 0xfe]],
+        vec![vec![7; 300]],
+        vec![b"k1".to_vec(), b"k2".to_vec(), b"k3".to_vec(), b"k4".to_vec()],
+    ];
+    let ops = mk("wal_op");
+    let segs = mk("segment");
+    let mut n = 0;
+    let mut seg_all = Vec::new();
+    for (i, ks) in keysets.iter().enumerate() {
+        for put in [true, false] {
+            let op = if put {
+                ondisk::Op::Put { key: ks.first().cloned().unwrap_or_default(), hash: hash_of(i as u8), size: (i as u64) << 33 }
+            } else {
+                ondisk::Op::Remove { keys: ks.clone() }
+            };
+            let enc = ondisk::encode_op(&op);
+            std::fs::write(ops.join(format!("op{n}")), &enc).unwrap();
+            let rec = ondisk::encode_record(n as u64 + 1, &enc);
+            std::fs::write(segs.join(format!("seg{n}")), &rec).unwrap();
+            seg_all.extend_from_slice(&rec);
+            n += 1;
+        }
+    }
+    let mut sealed = seg_all.clone();
+    sealed.extend_from_slice(&[0u8; 44]);
+    std::fs::write(segs.join("multi"), &seg_all).unwrap();
+    std::fs::write(segs.join("sealed"), &sealed).unwrap();
+    let snaps = mk("index_state");
+    for (i, ks) in keysets.iter().enumerate() {
+        let mut e: Vec<(Vec<u8>, [u8; 32], u64)> = ks.iter().enumerate().map(|(j, k)| (k.clone(), hash_of(j as u8), j as u64 * 77)).collect();
+        e.sort();
+        e.dedup_by(|a, b| a.0 == b.0);
+        std::fs::write(snaps.join(format!("snap{i}")), ondisk::encode_snapshot(i as u64, &e)).unwrap();
+    }
+    let paths = mk("blob_path");
+    for i in 0..6u8 {
+        let h = hash_of(i.wrapping_mul(37));
+        std::fs::write(paths.join(format!("p{i}")), rel_path_of(&h)).unwrap();
+        std::fs::write(paths.join(format!("h{i}")), hexs(&h)).unwrap();
+        std::fs::write(paths.join(format!("r{i}")), h).unwrap();
+        std::fs::write(paths.join(format!("x{i}")), format!("/var/db/cas/{}", rel_path_of(&h))).unwrap();
+    }
+}
